@@ -166,7 +166,7 @@ def run(ctx):
               "threshold_ of the implementation compared exactly with the Coq model evaluated on rationals (f_beta: value of "
               "the criterion at the implementation's threshold vs. the model's optimum). non-trivial = at least two distinct "
               "distances; distinct = distinct (strategy, parameter, ordered data)." % maxsize)
-  ctx.trusted = ["Coq 8.16.1 kernel + vm_compute", "hand-written model Model/Calibrate.v tied to the code by this correspondence",
+  ctx.trusted = ["text pins tools/translate_pins.py (calibrate_threshold, _validate_calibration_params)", "Coq 8.16.1 kernel + vm_compute", "hand-written model Model/Calibrate.v tied to the code by this correspondence",
                  "oracles: sklearn roc_curve / precision_recall_curve (inside the implementation; the model states what the "
                  "documented result must be)", "harness"]
   ok = ctx.build_property()
